@@ -32,7 +32,8 @@ CHECKS = {
          "canonical encoding from four internal representations incl. unreduced limbs; projection audited by bit-by-bit scalar multiplication in TLA+"),
  "C11": ("4 C11", "R3: X25519 events (fast base-point path, generic path, array API; nibble-pattern / unclamped / boundary / random scalars; curve, twist, low-order, non-canonical points; bad lengths) "
          "validated by TLC: result = RFC 7748 value, fast path = ladder, error iff bad length or all-zero result; the ladder itself is replayed step by step in TLA+ (Edwards.tla LadderOne) on a seeded sample; "
-         "R1: error/path table"),
+         "R1: error/path table; MCMontgomery (TLC, exhaustive over small curves of edwards25519's shape): ladder(k, u(P)) = u([k]P) for every point and scalar (fast path = ladder, conversions commute), "
+         "ladder(a, ladder(b, u)) = ladder(b, ladder(a, u)) for every field element, low-order inputs give 0; two refuted controls"),
  "C12": ("4 C12", "R1: u = (1+y)/(1-y) lands on the Montgomery curve and the decode algorithm is exact, over small fields (TLC); R3: EdPublicKeyToX25519 on the structured decode inputs (flag by checked witness, "
          "value by inverse witness, y = 1 -> 0), EdPrivateKeyToX25519 = clamp of SHA-512 prefix, commutation with X25519 on the base point; exact arithmetic in TLC"),
  "C13": ("4 C13", "R1: option table by TLC; R2: TLC enumerates the argument-shape matrix (function x lengths incl. nil x option classes x aliasing); R3: every shape replayed on the real API under recover "
